@@ -9,7 +9,8 @@
    Primitive (not translated; their modelled meaning is the stated assumption):
      self.builder.current                 the object whose body is being walked (`cur`)
      isinstance(x, model.Module)          the class tag of x is module or package;  CanContainImportsDocumentable: or class
-     x.all, x.parent, x.name              the fields o_all, o_parent, o_name of Model/Project.v
+     x.all, x.parent, x.name              the fields o_all (modules and packages only: AttributeError otherwise), o_parent,
+                                          o_name of Model/Project.v
      x.contents.get(k)                    lookup in o_contents
      x.resolveName(k), x.fullName()       Model/Project.v's resolve_name (expandName + allobjects lookup) and full_name
      k in names                           membership in a list of names
@@ -130,8 +131,10 @@ Section Exec.
     | EAll a =>
         match eval s en a with
         | VObj o => match objs s o with
-                    | Some ob => match o_all ob with Some l => VNames l | None => VNone end
-                    | None => VNone
+                    | Some ob => if is_module_tag (o_tag ob)
+                                 then match o_all ob with Some l => VNames l | None => VNone end
+                                 else VErr                 (* only Module has the attribute `all` *)
+                    | None => VErr
                     end
         | _ => VErr
         end
